@@ -62,6 +62,9 @@ impl Out {
         self.w.write_all(b"\n").unwrap();
         self.n += 1;
     }
+    pub fn flush(&mut self) {
+        self.w.flush().unwrap();
+    }
     pub fn finish(mut self) {
         self.w.flush().unwrap();
     }
@@ -104,7 +107,12 @@ pub fn quiet_panics() {
 pub struct Rng(pub u64);
 impl Rng {
     pub fn new(seed: u64) -> Rng {
-        Rng(seed.wrapping_mul(0x9E3779B97F4A7C15).wrapping_add(0x1234_5678_9abc_def1))
+        // mix the seed through the splitmix finaliser: without it the streams of nearby seeds are
+        // shifted copies of each other (seed s+1 = seed s advanced by one draw)
+        let mut z = seed.wrapping_add(0x1234_5678_9abc_def1);
+        z = (z ^ (z >> 30)).wrapping_mul(0xBF58476D1CE4E5B9);
+        z = (z ^ (z >> 27)).wrapping_mul(0x94D049BB133111EB);
+        Rng(z ^ (z >> 31))
     }
     pub fn next(&mut self) -> u64 {
         self.0 = self.0.wrapping_add(0x9E3779B97F4A7C15);
